@@ -804,10 +804,10 @@ macro_rules! store_harness {
 store_harness!(c24_sb, SB, COST_sb, 1u128);
 //@ props=C24,C23:thorough,C25:thorough,C26:thorough,C29:thorough tier=quick class=bounded(regions=16+8) timeout=1500 -- SW: 8-byte big-endian store at $rA + 8*imm (charged as sw)
 store_harness!(c24_sw, SW, COST_sw, 8u128);
-//@ props=C24:thorough,C23:thorough tier=thorough class=bounded(regions=16+8) timeout=1500 -- SHW: 2-byte store at $rA + 2*imm (charged as sw)
-store_harness!(c24_shw, SHW, COST_sw, 2u128);
-//@ props=C24:thorough,C23:thorough tier=thorough class=bounded(regions=16+8) timeout=1500 -- SQW: 4-byte store at $rA + 4*imm (charged as sw)
-store_harness!(c24_sqw, SQW, COST_sw, 4u128);
+//@ props=C24:thorough,C23:thorough tier=thorough class=bounded(regions=16+8) timeout=1500 -- SHW (half word): 4-byte store at $rA + 4*imm (charged as sw)
+store_harness!(c24_shw, SHW, COST_sw, 4u128);
+//@ props=C24:thorough,C23:thorough tier=thorough class=bounded(regions=16+8) timeout=1500 -- SQW (quarter word): 2-byte store at $rA + 2*imm (charged as sw)
+store_harness!(c24_sqw, SQW, COST_sw, 2u128);
 
 //@ props=C24,C23:thorough,C26:thorough,C29:thorough tier=quick class=bounded(regions=16+8) timeout=1500 -- MCL: clears exactly [$rA, $rA+$rB) when owned, dependent cost mcl(len), otherwise refused with memory unchanged
 #[kani::proof]
